@@ -1,5 +1,9 @@
 import Tickit.Proof.Sgr
 import Tickit.Proof.SgrFrame
+import Tickit.Proof.SgrSuspend
+import Tickit.Proof.SgrStrict
+import Tickit.Model.Modes
+import Tickit.Gen.TermBuf
 /-
   C10 — Terminal rendering attributes always equal the logical pen after setpen/chpen.
 
@@ -465,5 +469,186 @@ theorem params_witness :
     rw [if_pos (by omega)]
   · intro h
     exact requests_total _ h _ _
+
+/-! ### pause + resume (`Model/TermSuspend.lean`)
+
+  `tickit_term_pause` lets the xterm driver write its teardown bytes, which end with `ESC [ m`: the terminal's rendering
+  attributes are default from then on, while the cached (and the logical) pen are what they were.  `tickit_term_resume`
+  therefore has to send the cached pen again; `resend` says whether it does (`src_resume_resends`: the tree does). -/
+
+/-- **suspend_restores.** If the terminal renders with what the cached pen says, it does so again after the program was stopped
+    and continued — every attribute, not only those a later request happens to mention — and the cached pen is untouched. -/
+theorem suspend_restores (cfg : Cfg) (st st' : TState) (hok : PenOk cfg.caps st.cache)
+    (hg : st.vt.st = .ground) (ha : st.vt.attrs = expectAttrs cfg.caps st.cache)
+    (h : suspendStep cfg true st = some st') :
+    st'.vt.st = .ground ∧ st'.vt.attrs = st.vt.attrs ∧ st'.cache = st.cache := by
+  have := suspend_inv cfg st st' ⟨hg, ha⟩ hok h
+  exact ⟨this.1.1, by rw [this.1.2, this.2, ha], this.2⟩
+
+/-- **sgr_inv_suspend.** `sgr_inv` over histories in which the program is also stopped and continued (any number of times,
+    anywhere): the rendering attributes in force, as determined by ALL bytes emitted so far — those of pause and resume
+    included —, equal the logical pen; a suspension does not change the logical pen. -/
+theorem sgr_inv_suspend (cfg : Cfg) (es : List Ev) (st : TState) (h8 : 8 ≤ cfg.colors)
+    (hok : ∀ op, Ev.req op ∈ es → PenOk cfg.caps op.pen) (h : runEvs cfg true es {} = some st) :
+    st.vt.st = .ground ∧ st.cache = convPen cfg.colors (logicalEvs es) ∧ st.vt.attrs = expected cfg (logicalEvs es) := by
+  have hok' : ∀ e ∈ es, EvOk cfg.caps e := by
+    intro e he
+    cases e with
+    | req op => exact hok op he
+    | suspend => trivial
+  have hinv := runEvs_sinv cfg es {} st hok' (sinv_init cfg.caps) h
+  have hc := runEvs_cache cfg h8 es {} st {} hok' (sinv_init cfg.caps) rfl h
+  refine ⟨hinv.1.1, hc, ?_⟩
+  rw [hinv.1.2, hc]
+  rfl
+
+/-- **noop_after_suspend.** What the seeded scenario asks: after a suspension, a request that leaves the logical pen unchanged
+    is still silent — so nothing but the bytes of resume can have restored the attributes. -/
+theorem noop_after_suspend (cfg : Cfg) (es : List Ev) (op : Op) (st : TState) (h8 : 8 ≤ cfg.colors)
+    (hok : ∀ op, Ev.req op ∈ es → PenOk cfg.caps op.pen) (h : runEvs cfg true es {} = some st)
+    (hnoop : logicalStep (logicalEvs es) op = logicalEvs es) : emit cfg st.cache op = .bytes [] := by
+  have hl := (sgr_inv_suspend cfg es st h8 hok h).2.1
+  unfold emit
+  rw [hl, termDelta_noop cfg.colors h8 (logicalEvs es) op hnoop]
+  exact xtermChpen_empty _ _ _
+
+/-- **suspend_total.** Re-sending the whole cached pen fits `params[]` exactly when a request does (19). -/
+theorem suspend_total (cfg : Cfg) (resend : Bool) (hcap : 19 ≤ cfg.cap) (st : TState) : suspendStep cfg resend st ≠ none := by
+  unfold suspendStep resumeChpen
+  cases resend with
+  | false => simp
+  | true =>
+    simp only [if_true]
+    unfold xtermChpen
+    simp only
+    have := length_flatten_comps cfg.caps st.cache
+    rw [if_neg (by omega)]
+    by_cases h0 : (flatten (comps cfg.caps st.cache)).length = 0
+    · simp [h0]
+    · by_cases hnd : (!isNondefault st.cache) = true
+      · simp [h0, hnd]
+      · simp [h0, hnd]
+
+/-- **suspend_without_resend.** Were the cached pen NOT sent again, the terminal would be left with default attributes whatever
+    the logical pen says: the clause fails for every pen that asks for anything non-default … -/
+theorem suspend_without_resend (cfg : Cfg) (st : TState) (hg : st.vt.st = .ground) (ha : st.vt.attrs = expectAttrs cfg.caps st.cache)
+    (hnd : expectAttrs cfg.caps st.cache ≠ {}) :
+    ∃ st', suspendStep cfg false st = some st' ∧ st'.cache = st.cache ∧ st'.vt.attrs ≠ expectAttrs cfg.caps st'.cache := by
+  refine ⟨_, suspend_no_resend cfg st hg, rfl, ?_⟩
+  simp only
+  rw [ha, reset_of_junk0 _ (by rfl)]
+  exact fun h => hnd h.symm
+
+def evsEx : List Ev :=
+  [.req (.set { bold := some true, fg := some ⟨3, none⟩ }), .req (.ch { italic := some true }), .suspend,
+   .req (.ch { italic := some true }), .req (.ch { under := some 1 })]
+
+/-- … and a later request for what the pen already has does not repair it (the scenario of the demonstration: bold, yellow,
+    italic in force; pause; resume; `chpen {i}`; `chpen {u}`): with the pen re-sent the terminal ends with all four attributes,
+    without it only with the underline. -/
+theorem suspend_resend_needed :
+    (∃ st, runEvs cfgEx true evsEx {} = some st ∧
+      st.vt.attrs = { fg := .idx 3, bold := true, italic := true, under := 1 } ∧ st.vt.attrs = expected cfgEx (logicalEvs evsEx)) ∧
+    (∃ st, runEvs cfgEx false evsEx {} = some st ∧
+      st.vt.attrs = { under := 1 } ∧ st.vt.attrs ≠ expected cfgEx (logicalEvs evsEx)) := by
+  refine ⟨⟨_, rfl, by decide +kernel, by decide +kernel⟩, ⟨_, rfl, by decide +kernel, by decide +kernel⟩⟩
+
+/-- non-vacuity of `sgr_inv_suspend`: the history above satisfies its hypotheses -/
+example : ∀ op, Ev.req op ∈ evsEx → PenOk cfgEx.caps op.pen := by
+  intro op hop
+  simp only [evsEx, List.mem_cons, List.not_mem_nil, or_false, Ev.req.injEq, reduceCtorEq, false_or, or_false] at hop
+  rcases hop with h | h | h | h <;> subst h <;> constructor <;> intro v hv <;> cases hv <;> decide
+
+/-- The working tree re-sends the cached pen through the driver (`bin/extract.d/20_termbuf.py` reads `tickit_term_resume`). -/
+theorem src_resume_resends : Tickit.Gen.TermBuf.term_resume_resends_pen = true := rfl
+
+/-- The bytes of pause and resume used here are what C12's model of the xterm driver (`Model/Modes.lean`: `teardown`, `resume`,
+    every mode) writes when no mode has been changed since construction, and the reset is the literal the extractor reads from
+    `teardown`. -/
+theorem suspend_bytes_tie :
+    (∀ d : Tickit.Modes.XDrv, d.mode = {} → Tickit.Modes.drvTeardown d = xtermPauseBytes ∧ Tickit.Modes.drvResume d = xtermResumeBytes) ∧
+    Tickit.Gen.TermBuf.teardown_pen_reset.map (·.toNat) = xtermPauseBytes := by
+  refine ⟨?_, by decide⟩
+  intro d hd
+  simp [Tickit.Modes.drvTeardown, Tickit.Modes.drvResume, hd, xtermPauseBytes, xtermResumeBytes, Tickit.Modes.sgrReset]
+
+/-! ### nothing but SGR sequences
+
+  "The rendering state of the terminal is determined by the SGR bytes emitted for setpen/chpen": a pen request puts SGR sequences on
+  the terminal and nothing else (`Model/SgrStrict.lean`) — no byte outside a control sequence (the terminal would print it at the
+  cursor or execute it as a control: the pen request would have drawn something), no sequence other than an unmarked `CSI … m`,
+  and the last sequence is complete.  The correspondence harness judges the same predicate on the bytes of the implementation. -/
+
+/-- Every request emits SGR sequences only, from every cached pen and to every terminal in ground state, for every capability
+    combination, colour count and capacity of `params[]` (no hypothesis on the values). -/
+theorem pen_request_sgr_only (cfg : Cfg) (st : TState) (op : Op) (bs : List Byte) (hg : st.vt.st = .ground)
+    (h : emit cfg st.cache op = .bytes bs) : SgrOnly bs st.vt :=
+  Tickit.Proof.SgrStrict.xtermChpen_sgrOnly _ _ _ _ bs st.vt h hg
+
+/-- Everything a history of requests puts on the terminal, request after request. -/
+def historyBytes (cfg : Cfg) : List Op → Pen → List Byte
+  | [], _ => []
+  | op :: ops, cache =>
+    (match emit cfg cache op with
+      | .bytes bs => bs
+      | .overflow _ => []) ++ historyBytes cfg ops (termCache op.isSet cfg.colors cache op.pen)
+
+/-- … and so does every history of requests. -/
+theorem history_sgr_only (cfg : Cfg) (ops : List Op) (cache : Pen) (vt : VT) (hg : vt.st = .ground) :
+    SgrOnly (historyBytes cfg ops cache) vt := by
+  induction ops generalizing cache vt with
+  | nil => exact sgrOnly_nil vt hg
+  | cons op ops ih =>
+    simp only [historyBytes]
+    cases he : emit cfg cache op with
+    | overflow n => simpa using ih _ vt hg
+    | bytes bs =>
+      have h1 : SgrOnly bs vt := Tickit.Proof.SgrStrict.xtermChpen_sgrOnly _ _ _ _ bs vt he hg
+      exact sgrOnly_append _ _ _ h1 (ih _ _ h1.2.2)
+
+/-- Pause + resume (every mode at its construction value) puts SGR sequences only on the terminal as well. -/
+theorem suspend_sgr_only (cfg : Cfg) (resend : Bool) (st : TState) (bs : List Byte) (hg : st.vt.st = .ground)
+    (h : resumeChpen cfg.caps cfg.cap resend st.cache = .bytes bs) :
+    SgrOnly (xtermPauseBytes ++ xtermResumeBytes ++ bs) st.vt := by
+  have hp : ∀ vt : VT, vt.st = .ground → SgrOnly (xtermPauseBytes ++ xtermResumeBytes) vt := by
+    intro vt hv
+    cases vt with | mk s a =>
+    simp only at hv
+    subst hv
+    exact ⟨by simp [xtermPauseBytes, xtermResumeBytes, strays, isStray, feed],
+           by simp [xtermPauseBytes, xtermResumeBytes, foreign, isForeign, feed],
+           by simp [xtermPauseBytes, xtermResumeBytes, run, feed]⟩
+  have hp := hp st.vt hg
+  refine sgrOnly_append _ _ _ hp ?_
+  unfold resumeChpen at h
+  split at h
+  · exact Tickit.Proof.SgrStrict.xtermChpen_sgrOnly _ _ _ _ bs _ h hp.2.2
+  · cases h; exact sgrOnly_nil _ hp.2.2
+
+/-- non-vacuity: a 256-colour foreground on a fresh terminal is `ESC [ 3 8 : 5 : 2 0 0 m` (`cfgEx` has `:` sub-parameters) … -/
+example : emit cfgEx {} (.ch { fg := some ⟨200, none⟩ }) = .bytes [27, 91, 51, 56, 58, 53, 58, 50, 48, 48, 109] := by decide +kernel
+
+/-- … and the predicate is not vacuous: the same sequence followed by its NUL terminator and left-overs of a scratch buffer
+    (the text `ab`) is rejected — three bytes reach the terminal outside any sequence, two of them are drawn; so is a pen request
+    that sends a cursor movement. -/
+theorem sgr_only_rejects :
+    strays [27, 91, 51, 56, 58, 53, 58, 50, 48, 48, 109, 0, 97, 98] {} = [0, 97, 98] ∧
+    ¬ SgrOnly [27, 91, 51, 56, 58, 53, 58, 50, 48, 48, 109, 0, 97, 98] {} ∧
+    ¬ SgrOnly [27, 91, 49, 109, 27, 91, 50, 67] {} ∧ ¬ SgrOnly [27, 91, 49] {} := by
+  refine ⟨by decide, by decide, by decide, by decide⟩
+
+/-- Text drawn between pen requests (no ESC in it) reaches the terminal in ground state and changes nothing the pen is about:
+    what the harness's `print` step demands of the implementation's bytes. -/
+theorem print_keeps_attrs (text : List Byte) (h : ∀ b ∈ text, b ≠ 27) (vt : VT) (hg : vt.st = .ground) : run text vt = vt := by
+  induction text with
+  | nil => rfl
+  | cons b bs ih =>
+    have hb : b ≠ 27 := h b (by simp)
+    have hf : feed vt b = vt := by
+      unfold feed
+      rw [hg]
+      simp [hb]
+    have := ih (fun x hx => h x (by simp [hx]))
+    simpa [run, hf] using this
 
 end Tickit.Props.C10
